@@ -155,6 +155,19 @@ CHECKS = {
         design_ref='§7 C11',
         note=NOTE_COMMON + 'Dates inside areas, folds over no numeric cell (AVERAGE/MIN/MAX), text/blank operands of AND/OR are out of scope (the statement or Excel leave them open).',
         technique='TLA+ aggregate oracle with TLC-checked algebra, TLC-enumerated content assignments x shapes replayed, trace validation'),
+    'C14': dict(
+        category='model_checking',
+        text=('TLC checks the lookup oracle (XlLookup) against the statement: ExactIsFirst, ExactLastIsLast, ApproxIsMaxLE, ApproxAboveAll, '
+              'ApproxExtendsExact, IndexMatchPartner over all key columns up to length L over 4 key values x 9 lookup values, and the column-letter '
+              'bijection (letters <-> number, ColLetters = spelling of the digit sequence) for every column 1..16384; it enumerates every key column '
+              '(numbers: ascending, unsorted, duplicates; texts) x lookup value with the row each mode must return, INDEX over all (r, c) in '
+              '-1..rows+1 x -1..cols+1 for 9 area shapes, ADDRESS/column letters for all 16384 columns. Binding: VLOOKUP (3 spellings per mode, 2 '
+              'result columns), MATCH (with / without match type), XMATCH (forward, from the end), INDEX(MATCH) are replayed by overrides on probe '
+              'workbooks, INDEX with indices as literals and cells, ADDRESS with literals and cells, COLUMN of spec-spelled references and of the '
+              'formula\'s own cell; a sample through the public file path; random longer key columns are judged by TLC (Trace_C14).'),
+        design_ref='§7 C14',
+        note=NOTE_COMMON + 'Quick tier replays ADDRESS/COLUMN on column blocks around the letter-count boundaries, thorough on all 16384 columns. Approximate matching on non-ascending keys, MATCH type -1, case-variant text keys, INDEX with a zero index are out of scope.',
+        technique='TLA+ lookup oracle with TLC-checked laws, TLC-enumerated key columns / index grids / column letters replayed, trace validation'),
 }
 
 NOT_APPLICABLE = {}
